@@ -137,6 +137,16 @@ Proof.
   rewrite parse_tl_tlv by assumption. rewrite Hh. reflexivity.
 Qed.
 
+Lemma split_raws_S fuel bs :
+  bs <> [] ->
+  split_raws (S fuel) bs =
+  match next bs with
+  | None => None
+  | Some (t, c, raw, rest) =>
+      match split_raws fuel rest with None => None | Some l => Some ((t, c, raw) :: l) end
+  end.
+Proof. destruct bs; [contradiction|reflexivity]. Qed.
+
 Lemma split_raws_exts l : forall fuel,
   Forall (fun e => small (tlv 0 false 6 (fst e) ++ snd e)) l ->
   (length (concat (map enc_ext l)) <= fuel)%nat ->
@@ -147,14 +157,16 @@ Proof.
   induction l as [|e l IH]; intros fuel Hs Hf.
   - destruct fuel; reflexivity.
   - inversion Hs as [|? ? He Hl]; subst. cbn [map concat] in *.
-    destruct (tlv_cons 0 true 16 (tlv 0 false 6 (fst e) ++ snd e) (concat (map enc_ext l))) as (b & r & E).
-    unfold enc_ext at 1. unfold enc_ext at 1 in Hf. rewrite E in *.
-    destruct fuel as [|fuel]; [simpl in Hf; lia|].
-    cbn [split_raws]. rewrite <- E.
+    pose proof (tlv_length_2 0 true 16 (tlv 0 false 6 (fst e) ++ snd e)) as H2.
+    rewrite app_length in Hf.
+    change (enc_ext e) with (tlv 0 true 16 (tlv 0 false 6 (fst e) ++ snd e)) in Hf.
+    destruct fuel as [|fuel]; [lia|].
+    rewrite split_raws_S.
+    2:{ intros C. apply app_eq_nil in C. destruct C as [C _]. exact (tlv_not_nil 0 true 16 _ C). }
+    change (enc_ext e ++ concat (map enc_ext l)) with
+      (tlv 0 true 16 (tlv 0 false 6 (fst e) ++ snd e) ++ concat (map enc_ext l)).
     rewrite next_tlv by (try exact He; unfold max_int32; lia).
-    rewrite IH; [reflexivity|exact Hl|].
-    assert (length (b :: r) = length (tlv 0 true 16 (tlv 0 false 6 (fst e) ++ snd e) ++ concat (map enc_ext l))) by (rewrite E; reflexivity).
-    rewrite app_length in H. pose proof (tlv_length_2 0 true 16 (tlv 0 false 6 (fst e) ++ snd e)). cbn [length] in *. lia.
+    rewrite IH; [reflexivity|exact Hl|lia].
 Qed.
 
 Lemma ext_ids_exts l :
@@ -165,9 +177,10 @@ Lemma ext_ids_exts l :
   Some (map (fun e => (ext_oid e, enc_ext e)) l).
 Proof.
   induction 1 as [|e l (o & Ho) Hl IH]; intros Hs; [reflexivity|].
-  inversion Hs as [|? ? He Hsl]; subst. cbn [map ext_ids]. rewrite hdr_is_mk.
+  inversion Hs as [|? ? He Hsl]; subst. destruct e as [ob tl0]. cbn [fst snd] in *.
+  cbn [map ext_ids fst snd]. rewrite hdr_is_mk.
   unfold ext_id. rewrite take_tlv_tlv; [|lia|unfold max_int32; lia|exact (small_tlv _ _ _ _ (small_app_l _ _ He))].
-  rewrite hdr_is_mk, Ho. rewrite (IH Hsl). unfold ext_oid. rewrite Ho. reflexivity.
+  rewrite hdr_is_mk, Ho. rewrite (IH Hsl). unfold ext_oid. cbn [fst]. rewrite Ho. reflexivity.
 Qed.
 
 Lemma ext_step_block x :
@@ -301,10 +314,11 @@ Proof.
   set (rest := uid_el 1 (s_uid1 s) ++ uid_el 2 (s_uid2 s) ++ ext_block x) in *.
   pose proof (small_app_r _ _ Hs) as Hf.
   assert (Hr : small rest).
-  { unfold fixed_part in Hf. repeat (apply small_app_r in Hf). exact Hf. }
+  { pose proof Hf as Hr. unfold fixed_part in Hr. do 6 (apply small_app_r in Hr). exact Hr. }
   unfold parse_tbs. rewrite (version_step_built s rest Hw Hs).
   destruct (take_elems_fixed s rest Hw Hf) as (b3 & b5 & t3 & t5 & ->).
   rewrite !hdr_is_mk. destruct Hw as (Hv & Hi & Hrest). rewrite Hi. cbn [andb].
+  subst rest.
   destruct (tail_walk s x (conj Hv (conj Hi Hrest)) Hx Hr) as (c4 & c5 & -> & -> & ->).
   reflexivity.
 Qed.
@@ -339,8 +353,8 @@ Proof.
        p_spki_raw p_uid1_raw p_uid2_raw p_exts ext_block].
   rewrite filter_map_ct.
   destruct (ver_val s =? 0)%Z eqn:E.
-  - apply (ver_val_zero s Hw) in E. rewrite E. cbn [ver_el app]. rewrite <- !app_assoc. reflexivity.
-  - rewrite <- !app_assoc. reflexivity.
+  - apply (ver_val_zero s Hw) in E. rewrite E. reflexivity.
+  - reflexivity.
 Qed.
 
 Definition insert_at {A} (i : nat) (x : A) (l : list A) : list A := firstn i l ++ x :: skipn i l.
@@ -377,7 +391,9 @@ Section Cert.
     rewrite app_nil_r in T. rewrite T. rewrite hdr_is_mk.
     rewrite next_tlv by (try exact S2; unfold max_int32; lia). rewrite hdr_is_mk.
     rewrite (parse_tbs_built s x Hw Hx S2).
-    eexists. split; [reflexivity|]. cbn. repeat split; try reflexivity.
+    eexists. split; [reflexivity|].
+    cbn [m_raw_tbs m_raw_issuer m_raw_subject m_raw_spki m_version m_fp_noct].
+    repeat split; try reflexivity.
     rewrite (noct_built s x Hw). reflexivity.
   Qed.
 
@@ -409,9 +425,49 @@ Section Cert.
   Proof.
     intros Hw Hl Hc Hct S1 S2. apply noct_invariant; try assumption.
     - cbn [exts_list]. unfold insert_at, wf_exts in *. apply Forall_app. split.
-      + apply Forall_forall. intros e He. eapply Forall_forall; [exact Hl|]. eapply In_firstn_in. exact He.
+      + apply Forall_forall. intros e He. apply (proj1 (Forall_forall _ l) Hl e). rewrite <- (firstn_skipn i l). apply in_or_app. left. exact He.
       + constructor; [inversion Hc; assumption|].
-        apply Forall_forall. intros e He. eapply Forall_forall; [exact Hl|]. eapply In_skipn_in. exact He.
+        apply Forall_forall. intros e He. apply (proj1 (Forall_forall _ l) Hl e). rewrite <- (firstn_skipn i l). apply in_or_app. right. exact He.
     - cbn [exts_list]. symmetry. apply filter_insert_ct, Hct.
   Qed.
 End Cert.
+
+(* ------------------------------------------------------------------ *)
+(* non-vacuity: a concrete canonical certificate meets the hypotheses, and the
+   model really drops the poison extension placed first, in the middle or last *)
+Definition ex_src : src :=
+  mkSrc (Some [2]) [1] [6;3;43;101;112] (0, true, 16, []) [23;1;48;23;1;49] (0, true, 16, [])
+        [48;5;6;3;43;101;112;3;1;0] None (Some [0;255]).
+Definition ex_poison : ext := ([43;6;1;4;1;214;121;2;4;3], [1;1;255;4;2;5;0]).
+Definition ex_scts : ext := ([43;6;1;4;1;214;121;2;4;2], [4;4;4;2;0;0]).
+Definition ex_ski : ext := ([85;29;14], [4;3;4;1;7]).
+Definition ex_bc : ext := ([85;29;19], [1;1;255;4;2;48;0]).
+
+Lemma ex_wf :
+  wf_src ex_src /\ wf_exts [ex_ski; ex_bc] /\ wf_exts [ex_poison] /\ wf_exts [ex_scts] /\
+  ext_is_ct ex_poison = true /\ ext_is_ct ex_scts = true /\
+  ext_is_ct ex_ski = false /\ ext_is_ct ex_bc = false /\
+  small (cert_of ex_src (Some (insert_at 1 ex_poison [ex_ski; ex_bc])) [48;0;3;1;0]) /\
+  small (cert_of ex_src (Some [ex_ski; ex_bc]) [48;0;3;2;0;7]).
+Proof.
+  split.
+  { unfold wf_src, ex_src. cbn [s_version s_serial s_issuer s_subject s_uid1 s_uid2].
+    split; [exists 2%Z; split; [reflexivity|discriminate]|].
+    split; [reflexivity|].
+    split; [cbn; unfold max_int32, len_ok; lia|]. split; [cbn; unfold max_int32, len_ok; lia|].
+    split; [exact I|reflexivity]. }
+  split. { repeat constructor; eexists; vm_compute; reflexivity. }
+  split. { repeat constructor; eexists; vm_compute; reflexivity. }
+  split. { repeat constructor; eexists; vm_compute; reflexivity. }
+  split; [vm_compute; reflexivity|]. split; [vm_compute; reflexivity|].
+  split; [vm_compute; reflexivity|]. split; [vm_compute; reflexivity|].
+  split; unfold small, len_ok; vm_compute; reflexivity.
+Qed.
+
+Lemma ex_noct_drops_poison :
+  forall i, (i <= 2)%nat ->
+  option_map noct_tbs (option_map snd (cert_parts (cert_of ex_src (Some (insert_at i ex_poison [ex_ski; ex_bc])) [48;0;3;1;0]))) =
+  Some (tlv 0 true 16 (tbs_content ex_src (Some [ex_ski; ex_bc]))).
+Proof.
+  intros i Hi. destruct i as [|[|[|i]]]; [vm_compute; reflexivity..|lia].
+Qed.
